@@ -42,7 +42,8 @@ def run_family(ctx, name: str, cases: list) -> dict:
 def run(ctx):
     ctx.rule = (
         "TLC: OneAtATime, StoppedMeansQuiet, NoAttemptWhileUp, TimerSanctioned, BackoffByTries, CallbacksAlternate over all orders of "
-        "start/stop/mDNS records/attempt outcomes/session ends/time within 9 steps of Reconnect.tla; the real ReconnectLogic on the real "
+        "start/stop/mDNS records/attempt outcomes/session ends/time within 9 steps of Reconnect.tla; TLC-generated histories (one per distinct "
+        "state of an 8-step instance) driven through the real ReconnectLogic on the real "
         "APIClient over the simulated network: the whole back-off ladder (9 consecutive failures) per failure kind, auth/encryption failures, "
         "stop/start/matching and foreign mDNS records/timer placed before every step of every two-attempt story with every gap, record and "
         "timer in one instant (both orders), random stories; the event stream (attempt instants, callbacks, listener add/remove, stop return) "
@@ -55,7 +56,18 @@ def run(ctx):
         head, rest = sysf[:8], sysf[8:-2]
         sysf = head + rng.sample(rest, 1400) + sysf[-2:]
     rnd = [reconsim.random_story(rng, rng.randrange(2, 14)) for _ in range(600 if ctx.quick else 20000)]
-    for name, cases in {"systematic": sysf, "random": rnd}.items():
+    # TLC-generated histories: one per distinct state of the manager (8 steps, 30 s), shortest first
+    from vf.tlc import parse_tagged
+
+    rg = ctx.tlc("MC_Reconnect", "MC_Reconnect_gen.cfg", workers=1, timeout=1200)
+    hists = parse_tagged(sorted(set(rg.raw_printed)), "SCHED")
+    if len(hists) < 1000:
+        raise TLCFailure(f"MC_Reconnect_gen printed only {len(hists)} histories")
+    ctx.extra["tlc_generated_histories"] = len(hists)
+    if ctx.quick:
+        hists = rng.sample(hists, 1500)
+    tlcf = [reconsim.tokens_to_schedule(h, i) for i, h in enumerate(hists)]
+    for name, cases in {"tlc": tlcf, "systematic": sysf, "random": rnd}.items():
         res = run_family(ctx, name, cases)
         ctx.evaluations += res["n"]
         ctx.distinct |= {(name, i) for i in range(res["n"])}
